@@ -140,6 +140,20 @@ func (e Engine) newDB(config dvid.StoreConfig) (*BadgerDB, bool, error) {
 		dvid.TimeInfof("Found directory at %s (err = %v)\n", path, err)
 	}
 
+	// A process that dies right after badger created a new memtable file leaves a zero-length
+	// *.mem file behind, which badger.Open refuses ("while opening memtables ... Create a new
+	// file").  Such a file holds nothing, so remove it instead of requiring manual repair.
+	if !created {
+		if mems, globErr := filepath.Glob(filepath.Join(path, "*.mem")); globErr == nil {
+			for _, mem := range mems {
+				if fi, statErr := os.Stat(mem); statErr == nil && fi.Size() == 0 {
+					dvid.Infof("Removing empty memtable file %s left by an interrupted process\n", mem)
+					os.Remove(mem)
+				}
+			}
+		}
+	}
+
 	// Open the database
 
 	opts, err := getOptions(path, config.Config)
